@@ -13,7 +13,7 @@ tfail=$(go test -vet=off -count=1 ./... 2>&1 | grep -v "no test files" | grep -v
 echo "build: ${bfail:-ok}  suite: ${tfail:-pass}"
 log=$(mktemp /tmp/seedtest-log-XXXXXX)
 cd /verif && VERIF_REPO="$wt" ./check "$prop" "$tier" > "$log" 2>&1; rc=$?
-grep -m3 "VIOLATION\|INCONCLUSIVE\|HARNESS-STALE" "$log"
-grep -m2 "counterexample\|reproduced" "$log" | cut -c1-220
+grep -a -m3 "VIOLATION\|INCONCLUSIVE\|HARNESS-STALE" "$log"
+grep -a -m2 "counterexample\|reproduced" "$log" | cut -c1-220
 echo "check $prop $tier exit=$rc"
 rm -f "$log"
